@@ -342,6 +342,17 @@ func genC17Context(t *rapid.T) *C17Context {
 	if rapid.Bool().Draw(t, "const") {
 		f.Tops = append([]*Top{{K: "const", Const: &Const{Name: "A3", Val: []string{"7", "+", "1"}}}}, f.Tops...)
 	}
+	// formatted texts that share words (also words with control codes whose width depends on the font)
+	// under different fonts and line lengths: formatting one text must not depend on the others
+	nf := rapid.IntRange(0, 3).Draw(t, "nformat")
+	for i := 0; i < nf; i++ {
+		words := rapid.SliceOfN(rapid.SampledFrom([]string{"{UP_ARROW}{UP_ARROW}{UP_ARROW}", "{PKMN}", "Press", "{DOWN_ARROW}x", "scroll", "to", "{PLAYER}!", "WWWW", "iiii", "{LEFT_ARROW}{RIGHT_ARROW}"}), 2, 9).Draw(t, "fwords")
+		v := &TextVal{Lit: &StrLit{Parts: []string{strings.Join(words, " ")}}, Format: true}
+		v.Params = []*FParam{{Val: rapid.SampledFrom([]string{`"1_latin_rse"`, `"1_latin_frlg"`}).Draw(t, "ffont")}, {Val: fmt.Sprint(rapid.IntRange(30, 110).Draw(t, "flen"))}}
+		top := &Top{K: "text", Text: &TextStmt{Name: fmt.Sprintf("Fmt%c", 'A'+i), Val: v}}
+		pos := rapid.IntRange(0, len(f.Tops)).Draw(t, "fpos")
+		f.Tops = append(f.Tops[:pos], append([]*Top{top}, f.Tops[pos:]...)...)
+	}
 	return &C17Context{File: f}
 }
 
